@@ -369,6 +369,15 @@ class Interp:
         for t in st.targets:
             if isinstance(t, ast.Name):
                 env[t.id] = UNBOUND
+            elif isinstance(t, ast.Subscript) and not isinstance(t.slice, ast.Slice):
+                # `del xs[i]` on a list / deque is `xs.pop(i)` with the value dropped (IndexError when out of range alike)
+                obj = self.eval(t.value, ctx, env)
+                idx = self.eval(t.slice, ctx, env)
+                if ctx.dead:
+                    return
+                if not (isinstance(obj, models.Ref) and models.kind_of(obj) in ('list', 'deque')):
+                    raise PyvcUnsupported(f'del of an item of {type(obj).__name__} at {self.where(t)}')
+                models.call_method(self, ctx, obj, 'pop', [idx], {}, t)
             else:
                 raise PyvcUnsupported(f'del of {type(t).__name__} at {self.where(t)}')
 
